@@ -126,7 +126,80 @@ theorem proximity_none_iff (pts : List Point) (i : Nat) :
       obtain ⟨j, hj, hne, _⟩ := mem_otherDists.1 this
       exact absurd (h j hj) hne
 
+/-! ### pair correlation: normalisation and invariance (`arc` abstract) -/
+
+/-- **g(r) is the corrected pair histogram normalised by density.**  Bin `k` of the result is the
+sum over the retained ordered pairs whose distance lies in `[k·dr, (k+1)·dr)` of `1/arc`,
+divided by `ndensity · N · dr`, where `N` counts the particles inside the box. -/
+theorem paircorr_norm (arc : Rat → List Rat → Option Rat) (box : Box) (cutoff dr : Rat)
+    (nd : Option Rat) (pts : List Point) (k : Nat) (hk : k < nbins cutoff dr) :
+    (pairCorr arc box cutoff dr nd pts)[k]? =
+      some ((binSum arc dr (samples box cutoff (pts.filter (inBox box))) k).map
+        (· / (density box (pts.filter (inBox box)).length nd *
+                (pts.filter (inBox box)).length * dr))) := by
+  simp [pairCorr, hk]
+
+/-- the default density is `(N − 1) / volume of the box` -/
+theorem density_default (box : Box) (n : Nat) :
+    density box n none = ((n : Rat) - 1) / volume box := rfl
+
+/-- when every edge correction in the bin is defined, the bin value is the plain sum of `1/arc` -/
+theorem binSum_eq_sum (arc : Rat → List Rat → Option Rat) (dr : Rat) (ss : List Sample) (k : Nat)
+    (h : ∀ s ∈ ss, inBin dr k s.1 = true → (arc s.1 s.2).isSome = true) :
+    binSum arc dr ss k =
+      some (sumRat ((ss.filter fun s => inBin dr k s.1).map fun s => 1 / (arc s.1 s.2).getD 1)) := by
+  unfold binSum
+  have : ((ss.filter fun s => inBin dr k s.1).map fun s => arc s.1 s.2).any Option.isNone = false := by
+    rw [List.any_eq_false]
+    intro w hw
+    simp only [List.mem_map, List.mem_filter] at hw
+    obtain ⟨s, ⟨hs, hb⟩, rfl⟩ := hw
+    have := h s hs hb
+    cases hq : arc s.1 s.2 <;> simp [hq] at this ⊢
+  simp [this, List.map_map, Function.comp_def]
+
+/-- a single undefined (NaN) edge correction makes its OWN bin undefined (and no other: see
+`paircorr_norm`, every bin only looks at its own samples) -/
+theorem binSum_nan (arc : Rat → List Rat → Option Rat) (dr : Rat) (ss : List Sample) (k : Nat)
+    (s : Sample) (hs : s ∈ ss) (hb : inBin dr k s.1 = true) (hn : arc s.1 s.2 = none) :
+    binSum arc dr ss k = none := by
+  unfold binSum
+  have : ((ss.filter fun s => inBin dr k s.1).map fun s => arc s.1 s.2).any Option.isNone = true := by
+    rw [List.any_eq_true]
+    exact ⟨none, by simp only [List.mem_map, List.mem_filter]; exact ⟨s, ⟨hs, hb⟩, hn⟩, rfl⟩
+  simp [this]
+
+/-- **Permuting the particles does not change g(r).** -/
+theorem paircorr_perm_invariant (arc : Rat → List Rat → Option Rat) (box : Box) (cutoff dr : Rat)
+    (nd : Option Rat) (pts pts' : List Point) (h : pts.Perm pts') :
+    pairCorr arc box cutoff dr nd pts = pairCorr arc box cutoff dr nd pts' :=
+  pairCorr_perm arc box cutoff dr nd h
+
+/-- **Translating particles and box together does not change g(r)** (the edge correction only
+sees the pair distance and the distances to the box sides, which are translation invariant). -/
+theorem paircorr_translation_invariant (arc : Rat → List Rat → Option Rat) (box : Box)
+    (cutoff dr : Rat) (nd : Option Rat) (pts : List Point) (t : Point)
+    (hp : ∀ p ∈ pts, p.length = t.length) (hb : box.length = t.length) :
+    pairCorr arc (translateBox t box) cutoff dr nd (pts.map (translate t)) =
+      pairCorr arc box cutoff dr nd pts :=
+  pairCorr_congr arc (translate t) box (translateBox t box) cutoff dr nd pts
+    (fun p h => inBox_translate t box p (hp p h) hb)
+    (fun p h => sideDists_translate t box p (hp p h) hb)
+    (fun p h q h' => dist2_translate t p q (hp p h) (hp q h'))
+    (volume_translate t box hb)
+
 /-! ### non-vacuity -/
+
+/-- four particles in the box `[0,4]²` (one more outside, disregarded), cutoff 2, dr 1, `arc`
+constant 2: N = 4, density 3/16, the two unit-distance pairs fall in bin 1 (each counted from
+both ends): g = [0, (4·½) / (3/16·4·1)] -/
+example : pairCorr (fun _ _ => some 2) [(0, 4), (0, 4)] 2 1 none
+    [[0, 0], [1, 0], [4, 4], [4, 3], [5, 5]] = [some 0, some (8 / 3)] := by decide +kernel
+
+/-- an undefined correction only blanks its own bin -/
+example : pairCorr (fun d2 _ => if d2 = 1 then none else some 1) [(0, 4), (0, 4)] 3 1 (some 1)
+    [[0, 0], [1, 0], [3, 0]] = [some 0, none, some (2 / 3)] := by decide +kernel
+
 
 /-- four collinear points, separation 1: 0 –½– ½ –1– 3/2 –1/4– 7/4.  The middle gap is EXACTLY
 the separation and is not a pair (strict). -/
